@@ -141,7 +141,9 @@ def native_product(vals):
     except Exception:
         a, b = 2, 3
     msgs = []
-    for (a, b) in [(a, b), (2, 3), (3, 2)]:
+    # the solver's sizes, two small ones, and a sweep of the second operand's size (index arithmetic done in floating point
+    # fails for particular sizes only)
+    for (a, b) in [(a, b), (2, 3), (3, 2)] + [(3, k) for k in range(4, 131)]:
         b1 = jnp.arange(a, dtype=float)[:, None] + 100.0
         b2 = jnp.arange(b, dtype=float)[:, None]
         out = np.asarray(make_cartesian_product(b1, b2))
